@@ -72,6 +72,10 @@ EQS = [
     ("has-get", "[range(-length - 2; length + 2) as $i | has($i) == ((.[:$i] | length) != (.[:$i + 1] | length) or ($i == -1 and length > 0))]", "[range(-length - 2; length + 2) | true]"),
     ("has-keys", "[has(keys[])] | all", "true"),
     ("in-keys", "[keys[] as $k | [.] | all(.[]; . as $c | $k | in($c))] | all", "true"),
+    # bsearch on a sorted array: a non-negative result points at an equal element, a negative one (-1 - r) names the insertion point r
+    ("bsearch-spec", "sort | . as $a | [($a[], $x, ($a[] | [.]), null) as $y | ($a | bsearch($y)) as $r | if $r >= 0 then $a[$r] == $y else (-1 - $r) as $i | ([$a[:$i][] | . < $y] | all) and ([$a[$i:][] | . > $y] | all) end] | all", "true"),
+    ("bsearch-present", "sort | . as $a | [$a[] as $y | ($a | bsearch($y)) >= 0] | all", "true"),
+    ("bsearch-iff", "sort | . as $a | (($a | bsearch($x)) >= 0) == any($a[]; . == $x)", "true"),
 ]
 
 ARRS = ["[]", "[1]", "[3,1,2]", "[1,1.0,1]", "[{\"a\":1,\"b\":2},{\"a\":1,\"b\":1},{\"a\":0},{\"b\":1,\"a\":1}]", "[[2,1],[1,2],[1],[]]",
@@ -89,7 +93,7 @@ DOM = {"sort_by": "arr", "sort_by-stable": "arr", "sort": "arr", "group_by": "ar
        "map": "arrobj", "map_values": "arrobj", "index": "arrstr", "rindex": "arrstr", "indices-verify": "arrstr", "flatten": "any",
        "flatten-d": "any", "abs": "num", "floor-int": "num", "indices-complete": "arrstr", "ltrimstr": "str", "rtrimstr": "str", "tonumber": "scalar", "combinations-n": "arr", "any-all": "arr", "add": "arrobj",
        "first-last": "arr", "transpose": "arrarr", "to_entries": "obj", "from_entries-last-wins": "obj", "splits": "str", "join": "arr",
-       "has-in": "any", "in": "any", "inside": "any", "has-range": "arr", "has-get": "arr", "has-keys": "arrobj", "in-keys": "arrobj"}
+       "has-in": "any", "in": "any", "inside": "any", "bsearch-spec": "arr", "bsearch-present": "arr", "bsearch-iff": "arr", "has-range": "arr", "has-get": "arr", "has-keys": "arrobj", "in-keys": "arrobj"}
 
 
 def gen(ctx):
@@ -131,6 +135,15 @@ def gen(ctx):
             _, lhs, rhs = [e for e in EQS if e[0] == kind][0]
             lhs_, rhs_ = lhs.replace("F", f), rhs.replace("F", f)
             cases.append(dict(filter=ST + "[st(%s), st(%s)]" % (lhs_, rhs_), inputs=[from_json(arr)], vars=[], kind=kind, eq=(lhs_, rhs_)))
+    # bsearch on long sorted arrays with runs of equal elements, for every element, every gap and both ends
+    for _ in range(40 if tier == "quick" else 600):
+        k = rng.randint(1, 70)
+        arr = sorted(rng.choice([2 * rng.randint(0, 40), 2 * rng.randint(0, 8)]) for _ in range(k))
+        if rng.random() < 0.3:
+            arr = [float(x) if rng.random() < 0.5 else x for x in arr]
+        lhs_ = ". as $a | [range(-1; 84) as $y | ($a | bsearch($y)) as $r | if $r >= 0 then $a[$r] == $y else (-1 - $r) as $i | ([$a[:$i][] | . < $y] | all) and ([$a[$i:][] | . > $y] | all) end] | all"
+        cases.append(dict(filter=ST + "[st(%s), st(%s)]" % (lhs_, "true"), inputs=[from_json(arr)], vars=[], kind="bsearch-spec", eq=(lhs_, "true")))
+        cases.append(dict(filter="[bsearch(range(-1; 84))]", inputs=[from_json(arr)], vars=[], kind="bsearch-model"))
     # searching in text strings, byte strings and arrays: overlapping and multi-byte occurrences
     hay = ["aaaa", "ababab", "abcabc", "", "a", "\u00e9\u00e9\u00e9", "x\u00e9x\u00e9", "aXaXa", "aaa\u20acaa"]
     needles = ["aa", "abab", "a", "", "abc", "\u00e9", "\u00e9\u00e9", "aXa", "b", "x\u00e9"]
@@ -230,6 +243,8 @@ def oracle(c, impl, model=None):
     if not (isinstance(impl, list) and impl and impl[0] == "out" and impl[2] == "end" and len(impl[1]) == 1):
         return None
     out = impl[1][0]
+    if c["kind"] == "bsearch-model":
+        return None        # compared with the model of the standard library's binary search only
     if c["kind"].startswith("search-"):
         h, nd, kind = c["py"]
         got = out[1:]
